@@ -84,6 +84,14 @@ def mutate(draw, kind: str, v: Any) -> Any:
     if kind.startswith("map<"):
         kk, vk = kind[4:-1].split(",", 1)
         v = dict(v)
+        if len(v) >= 2 and draw(st.integers(0, 2)) == 0:
+            # the same entries written in another order (an equal map), or written in another order with two values exchanged
+            items = list(v.items())
+            items.reverse()
+            if draw(st.booleans()):
+                (k1, v1), (k2, v2) = items[0], items[-1]
+                items[0], items[-1] = (k1, v2), (k2, v1)
+            return dict(items)
         if not v or draw(st.booleans()):
             k = draw(value_of(f"list<{kk}>").filter(lambda l: len(l) > 0))[0]
             v[k] = draw(value_of(vk))
